@@ -98,7 +98,7 @@ class _OldRewriter(ast.NodeTransformer):
     def visit_Call(self, node):
         if isinstance(node.func, ast.Name) and node.func.id == "old" and len(node.args) == 1:
             self.olds.append(ast.Expression(body=node.args[0]))
-            return ast.Subscript(value=ast.Name(id="__old__", ctx=ast.Load()), slice=ast.Constant(value=len(self.olds) - 1), ctx=ast.Load())
+            return ast.Call(func=ast.Name(id="__oldeval__", ctx=ast.Load()), args=[ast.Constant(value=len(self.olds) - 1)], keywords=[])
         return self.generic_visit(node)
 
 
@@ -152,12 +152,35 @@ def run_case(c, inputs: dict, call=None, extra_ns=None) -> NativeResult:
     for rs in c.raises_:
         rs_compiled.append((rs, compile_clause(rs.when.text) if rs.when else None, [compile_clause(e.text) for e in rs.ensures]))
     post_lets = [(n, compile_clause(cl.text)) for n, cl in c.post_lets]
-    # evaluate old(...) sub-expressions in the entry state
-    def olds_of(cc):
-        return [eval(o, ns) for o in cc[1]]
-    old_vals = {lab: olds_of(cc) for lab, cc in compiled.items()}
-    old_lets = [olds_of(cc) for _, cc in post_lets]
-    old_rs = [[olds_of(e) for e in ens] for _, _, ens in rs_compiled]
+    # old(...) sub-expressions are evaluated LAZILY in a deep copy of the entry state (so that a guard such as
+    # `not old(k in d) or old(d[k]) == ...` short-circuits), with a snapshot of the files named by the inputs
+    ns_old = {}
+    for k, v in ns.items():
+        try:
+            ns_old[k] = copy.deepcopy(v) if k in inputs or k in [n for n, _ in c.lets] else v
+        except Exception:
+            ns_old[k] = v
+    snap = {}
+    def _snap(v):
+        if isinstance(v, str) and v and os.path.isfile(v):
+            try:
+                with open(v, "rb") as fh:
+                    snap[v] = fh.read()
+            except OSError:
+                pass
+        elif isinstance(v, (list, tuple)):
+            for x in v:
+                _snap(x)
+        elif isinstance(v, dict):
+            for x in v.values():
+                _snap(x)
+    for v in inputs.values():
+        _snap(v)
+    ns_old["FILE"] = lambda p: snap[p]
+    ns_old["TEXTFILE"] = lambda p: snap[p].decode()
+    ns_old["EXISTS"] = lambda p: p in snap
+    def make_oldeval(cc):
+        return lambda k: eval(cc[1][k], ns_old)
     when_vals = [bool(eval(w[0], ns)) if w is not None else None for _, w, _ in rs_compiled]
     if call is None:
         _, fn = resolve_function(c.file, c.func)
@@ -174,13 +197,13 @@ def run_case(c, inputs: dict, call=None, extra_ns=None) -> NativeResult:
     if nr.outcome == "return":
         ns["result"] = nr.result
         for i, (n, cc) in enumerate(post_lets):
-            ns["__old__"] = old_lets[i]
+            ns["__oldeval__"] = make_oldeval(cc)
             ns[n] = eval(cc[0], ns)
         for i, w in enumerate(when_vals):
             if w is True:
                 nr.failures.append((f"must-raise:{rs_compiled[i][0].label}", "returned normally although the stated condition held"))
         for lab, cc in compiled.items():
-            ns["__old__"] = old_vals[lab]
+            ns["__oldeval__"] = make_oldeval(cc)
             try:
                 ok = bool(eval(cc[0], ns))
             except Exception as e:  # clause not evaluable = result has the wrong shape
@@ -202,7 +225,7 @@ def run_case(c, inputs: dict, call=None, extra_ns=None) -> NativeResult:
             if when_vals[allowed] is False:
                 nr.failures.append((f"raises-only-when:{rs.label}", f"{type(nr.exc).__name__} although the stated condition did not hold"))
             for j, e in enumerate(ens):
-                ns["__old__"] = old_rs[allowed][j]
+                ns["__oldeval__"] = make_oldeval(e)
                 if not eval(e[0], ns):
                     nr.failures.append((f"raises-ensures:{rs.label}.{j}", "state changed on rejection"))
     return nr
